@@ -217,6 +217,14 @@ class DontCare(Undecided):
     """The outcome depends on something no property constrains (e.g. lexicographic order of two labels)."""
 
 
+class NeedSplit(Undecided):
+    """A comparison whose outcome the abstract state does not fix: the driver refines the state on `lin`."""
+
+    def __init__(self, lin, msg):
+        Undecided.__init__(self, msg)
+        self.lin = lin
+
+
 class PyRaise(Exception):
     def __init__(self, name, node=None):
         Exception.__init__(self, name)
@@ -527,12 +535,15 @@ class Interp:
         d = a if b is None else (a - b)
         s = self.state.sign(d)
         if s is None:
-            raise Undecided("comparison of %r with 0 is not decided by the declared atoms%s" % (d, (" at " + norm(node)[:60]) if node is not None else ""))
+            raise NeedSplit(d, "comparison of %r with 0 is not decided by the declared atoms%s" % (d, (" at " + norm(node)[:60]) if node is not None else ""))
         return s
 
     def num(self, v, node=None) -> Lin:
         if isinstance(v, Lin):
             return v
+        if isinstance(v, MinMax):
+            # the value is needed exactly: refine the state until the min/max is determined
+            raise NeedSplit(v.args[0] - v.args[1], "%r is used in a computation/comparison" % (v,))
         if isinstance(v, bool):
             raise Undecided("boolean used as number")
         if isinstance(v, (int, float, Fraction)):
@@ -550,11 +561,13 @@ class Interp:
             r = self.equal(a, b, node)
             return r if isinstance(op, ast.Eq) else not r
         # ordering
+        if isinstance(a, MinMax) or isinstance(b, MinMax):
+            self.num(a if isinstance(a, MinMax) else b)
         if isinstance(a, (Lin, int, float, Fraction)) and isinstance(b, (Lin, int, float, Fraction)) and not isinstance(a, bool) and not isinstance(b, bool):
             ss = self.state.signs(self.num(a) - self.num(b))
             truths = {{ast.Lt: s < 0, ast.LtE: s <= 0, ast.Gt: s > 0, ast.GtE: s >= 0}[type(op)] for s in ss}
             if len(truths) != 1:
-                raise Undecided("comparison %s of %r and %r is not decided by the abstract state%s" % (type(op).__name__, a, b, (" at " + norm(node)[:60]) if node is not None else ""))
+                raise NeedSplit(self.num(a) - self.num(b), "comparison %s of %r and %r is not decided by the abstract state%s" % (type(op).__name__, a, b, (" at " + norm(node)[:60]) if node is not None else ""))
             return truths.pop()
         if isinstance(a, Tup) and isinstance(b, Tup):
             c = self.tuple_cmp(a, b, node)
@@ -585,13 +598,15 @@ class Interp:
     def equal(self, a, b, node=None) -> bool:
         if isinstance(a, bool) or isinstance(b, bool) or a is None or b is None:
             return a is b if (a is None or b is None) else a == b
+        if isinstance(a, MinMax) or isinstance(b, MinMax):
+            self.num(a if isinstance(a, MinMax) else b)
         if isinstance(a, (Lin, int, float, Fraction)) and isinstance(b, (Lin, int, float, Fraction)):
             ss = self.state.signs(self.num(a) - self.num(b))
             if ss == frozenset([0]):
                 return True
             if 0 not in ss:
                 return False
-            raise Undecided("equality of %r and %r is not decided by the abstract state" % (a, b))
+            raise NeedSplit(self.num(a) - self.num(b), "equality of %r and %r is not decided by the abstract state" % (a, b))
         if isinstance(a, str) and isinstance(b, str):
             return a == b
         if isinstance(a, Str) or isinstance(b, Str):
